@@ -2,6 +2,7 @@
 
 mod checks;
 mod common;
+mod hist;
 mod json;
 mod runner;
 mod sc_model;
